@@ -2,11 +2,11 @@
 
    reciprocal_exact: for every 16-bit divisor d >= 1 and every |x| <= 32767 the
    reciprocal quantiser (compute_reciprocal + quantize, 16- or 32-bit DCTELEM)
-   returns sign(x) * floor((|x| + d/2) / d).  Structure: an ALGEBRAIC soundness
-   lemma (recip_core / recip_cert_sound) shows that a handful of inequalities
-   between the numbers compute_reciprocal produced for d (reciprocal f, correction
-   c, shift r) imply exactness for ALL x of the range; the inequalities are then
-   evaluated for each of the 65535 divisors by vm_compute (recip_cert). *)
+   returns sign(x) * floor((|x| + d/2) / d).  Structure: this file shows that a handful of
+   inequalities (recip_facts) between the numbers compute_reciprocal produced for d
+   (reciprocal f, correction c, shift r) imply exactness for ALL x of the range
+   (recip_core / recip_sound / recip_simd_sound); proofs/QuantAlg.v proves the
+   inequalities algebraically for every divisor (no enumeration of divisors). *)
 From Coq Require Import List ZArith Lia Bool ZifyBool.
 From LJT Require Import lib.Sweep gen.GenDctConst model.Quant.
 Import ListNotations.
@@ -69,59 +69,49 @@ Proof.
         lia.
 Qed.
 
-(* ---------------------------------------------------------------- per-divisor certificate *)
-Definition recip_cert (cf : cfg) (d : Z) : bool :=
-  match compute_reciprocal cf d with
-  | None => false
-  | Some rc =>
-    let W := c_dw cf in
-    let f := wrapU W (r_recip rc) in
-    let c := wrapU W (r_corr rc) in
-    let r := r_shift rc + W in
-    let h := d / 2 in
-    let s := c - h in
-    let E := f * d - 2 ^ r in
-    let K := (32767 + h) / d in
-    let M := (32767 + h) - K * d in
-    (0 <=? r) && (0 <=? s) && (32767 + c <? 2 ^ 16) && ((32767 + c) * f <? 2 ^ (2 * W)) && (K <? 32768)
-    && ((0 <=? E) || (0 <=? K * E + s * f))
-    && (if E <=? 0 then (d - 1 + s) * f <? 2 ^ r
-        else ((K =? 0) || ((K - 1) * E + (d - 1 + s) * f <? 2 ^ r)) && (K * E + (M + s) * f <? 2 ^ r))
-    (* what jsimd_quantize needs in addition, when start_pass_fdctmgr lets it run (result 1) *)
-    && (if c_simd cf && (r_ret rc =? 1)
-        then (W =? 16) && (16 <=? r) && (r <=? 32) && (wrapU 16 (r_scale rc) =? 2 ^ (32 - r)) else true)
-  end.
+(* ---------------------------------------------------------------- what has to hold for a divisor *)
+Definition recip_facts (cf : cfg) (d : Z) (rc : recip) : Prop :=
+  let W := c_dw cf in
+  let f := wrapU W (r_recip rc) in
+  let c := wrapU W (r_corr rc) in
+  let r := r_shift rc + W in
+  let h := d / 2 in
+  let s := c - h in
+  let E := f * d - 2 ^ r in
+  let K := (32767 + h) / d in
+  let M := (32767 + h) - K * d in
+  0 <= r /\ 0 <= s /\ 32767 + c < 2 ^ 16 /\ (32767 + c) * f < 2 ^ (2 * W) /\ K < 32768 /\
+  (0 <= E \/ 0 <= K * E + s * f) /\
+  (E <= 0 -> (d - 1 + s) * f < 2 ^ r) /\
+  (0 < E -> (K = 0 \/ (K - 1) * E + (d - 1 + s) * f < 2 ^ r) /\ K * E + (M + s) * f < 2 ^ r) /\
+  (* what jsimd_quantize needs in addition, when start_pass_fdctmgr lets it run (result 1) *)
+  (c_simd cf = true -> r_ret rc = 1 -> W = 16 -> 16 <= r <= 32 /\ wrapU 16 (r_scale rc) = 2 ^ (32 - r)).
 
-(* what the certificate gives, in terms of plain integer division *)
-Lemma recip_cert_mag cf d rc :
-  (c_dw cf = 16 \/ c_dw cf = 32) -> 1 <= d -> compute_reciprocal cf d = Some rc -> recip_cert cf d = true ->
+(* what the facts give, in terms of plain integer division *)
+Lemma recip_facts_mag cf d rc :
+  (c_dw cf = 16 \/ c_dw cf = 32) -> 1 <= d -> recip_facts cf d rc ->
   let W := c_dw cf in
   let f := wrapU W (r_recip rc) in
   let c := wrapU W (r_corr rc) in
   let r := r_shift rc + W in
   0 <= r /\ 0 <= c /\ 0 <= f /\ 32767 + c < 2 ^ 16 /\ (32767 + c) * f < 2 ^ (2 * W) /\
-  (c_simd cf = true -> r_ret rc = 1 -> W = 16 /\ 16 <= r <= 32 /\ wrapU 16 (r_scale rc) = 2 ^ (32 - r)) /\
   forall a, 0 <= a <= 32767 -> ((a + c) * f) / 2 ^ r = (a + d / 2) / d /\ 0 <= (a + d / 2) / d < 32768.
 Proof.
-  intros HW Hd Hrc Hc. unfold recip_cert in Hc. rewrite Hrc in Hc.
-  intros W f c r.
+  intros HW Hd Hc. unfold recip_facts in Hc. intros W f c r.
   fold W in Hc. fold f in Hc. fold c in Hc. fold r in Hc.
   set (h := d / 2) in *.
   set (s := c - h) in *.
   set (E := f * d - 2 ^ r) in *.
   set (K := (32767 + h) / d) in *.
   set (M := (32767 + h) - K * d) in *.
-  repeat rewrite andb_true_iff in Hc.
-  destruct Hc as [[[[[[[Hr Hs] Hc16] Hprod] HK] HL] HU] HS].
+  cbv zeta in Hc.
+  destruct Hc as [Hr [Hs [Hc16 [Hprod [HK [HL [HU1 [HU2 _]]]]]]]].
   assert (HWpos : 16 <= W <= 32) by (destruct HW; lia).
   assert (Hf : 0 <= f) by (apply wrapU_nonneg; lia).
   assert (Hcn : 0 <= c) by (apply wrapU_nonneg; lia).
   assert (HR : 0 < 2 ^ r) by (apply Z.pow_pos_nonneg; lia).
   assert (Hh : 0 <= h) by (apply Z.div_pos; lia).
   split; [lia|]. split; [lia|]. split; [lia|]. split; [lia|]. split; [lia|].
-  split.
-  { intros Hsimd Hret. rewrite Hsimd, Hret in HS. cbn [andb Z.eqb Pos.eqb] in HS.
-    repeat rewrite andb_true_iff in HS. lia. }
   intros a Ha. split; [|split].
   - set (y := a + h).
     assert (Hy : y = d * (y / d) + y mod d) by (apply Z.div_mod; lia).
@@ -132,23 +122,17 @@ Proof.
     { destruct (Z_lt_ge_dec (y / d) K) as [?|?]; [left; assumption|right].
       assert (y / d = K) by lia. split; [assumption|]. unfold M. lia. }
     replace (a + c) with ((y / d) * d + y mod d + s) by (unfold s, y in *; lia).
-    apply recip_core with (E := E) (K := K) (M := M); try lia; try reflexivity.
-    + intros HE0. destruct (E <=? 0) eqn:HEb; lia.
-    + intros HE0. destruct (E <=? 0) eqn:HEb; [lia|].
-      rewrite andb_true_iff, orb_true_iff in HU. lia.
+    apply recip_core with (E := E) (K := K) (M := M); try lia; try reflexivity; assumption.
   - apply Z.div_pos; lia.
   - assert ((a + h) / d <= K) by (apply Z.div_le_mono; lia). lia.
 Qed.
 
-Lemma recip_cert_sound cf d :
-  (c_dw cf = 16 \/ c_dw cf = 32) -> 1 <= d -> recip_cert cf d = true ->
-  exists rc, compute_reciprocal cf d = Some rc /\
-    forall x, -32767 <= x <= 32767 -> quantize_recip_one cf rc x = rdiv x d.
+Lemma recip_sound cf d rc :
+  (c_dw cf = 16 \/ c_dw cf = 32) -> 1 <= d -> recip_facts cf d rc ->
+  forall x, -32767 <= x <= 32767 -> quantize_recip_one cf rc x = rdiv x d.
 Proof.
   intros HW Hd Hc.
-  destruct (compute_reciprocal cf d) as [rc|] eqn:Hrc; [|unfold recip_cert in Hc; rewrite Hrc in Hc; discriminate].
-  exists rc. split; [reflexivity|].
-  destruct (recip_cert_mag cf d rc HW Hd Hrc Hc) as [Hr [Hcn [Hf [Hc16 [Hprod [_ Mag0]]]]]].
+  destruct (recip_facts_mag cf d rc HW Hd Hc) as [Hr [Hcn [Hf [Hc16 [Hprod Mag0]]]]].
   set (W := c_dw cf) in *.
   set (f := wrapU W (r_recip rc)) in *.
   set (c := wrapU W (r_corr rc)) in *.
@@ -187,14 +171,15 @@ Proof.
 Qed.
 
 (* jsimd_quantize: two "multiply, keep the high word" steps equal one shift by r *)
-Lemma recip_cert_simd_sound cf d rc :
-  (c_dw cf = 16 \/ c_dw cf = 32) -> 1 <= d -> compute_reciprocal cf d = Some rc -> recip_cert cf d = true ->
-  c_simd cf = true -> r_ret rc = 1 ->
+Lemma recip_simd_sound cf d rc :
+  c_dw cf = 16 -> 1 <= d -> recip_facts cf d rc -> c_simd cf = true -> r_ret rc = 1 ->
   forall x, -32767 <= x <= 32767 -> quantize_simd_one rc x = rdiv x d.
 Proof.
-  intros HW Hd Hrc Hc Hsimd Hret.
-  destruct (recip_cert_mag cf d rc HW Hd Hrc Hc) as [Hr [Hcn [Hf [Hc16 [Hprod [HS Mag0]]]]]].
-  destruct (HS Hsimd Hret) as [HW16 [Hr16 Hscale]].
+  intros HW16 Hd Hc Hsimd Hret.
+  destruct (recip_facts_mag cf d rc (or_introl HW16) Hd Hc) as [Hr [Hcn [Hf [Hc16 [Hprod Mag0]]]]].
+  assert (HS : 16 <= r_shift rc + c_dw cf <= 32 /\ wrapU 16 (r_scale rc) = 2 ^ (32 - (r_shift rc + c_dw cf))).
+  { unfold recip_facts in Hc. cbv zeta in Hc. apply Hc; assumption. }
+  destruct HS as [Hr16 Hscale].
   rewrite HW16 in *.
   set (f := wrapU 16 (r_recip rc)) in *.
   set (c := wrapU 16 (r_corr rc)) in *.
@@ -227,6 +212,6 @@ Proof.
     + replace (Z.sgn x) with 1 by lia. lia.
 Qed.
 
-(* the two certified configurations (the DCTELEM width is all that matters, see QuantProofs.v) *)
+(* the configurations used as non-vacuity witnesses *)
 Definition cf16 : cfg := mkcfg 8 16 16 true.
 Definition cf32 : cfg := mkcfg 8 32 32 false.
